@@ -178,6 +178,9 @@ class AESGCMAlgorithm(JWEAlgorithm):
         if not tag:
             raise ValueError('Missing "tag" in headers')
 
+        if not isinstance(iv, str) or not isinstance(tag, str):
+            raise ValueError('Invalid "iv" or "tag" in headers')
+
         iv = urlsafe_b64decode(to_bytes(iv))
         tag = urlsafe_b64decode(to_bytes(tag))
 
